@@ -6,7 +6,8 @@
 //!   every stage of `allocate_registers::try_color` on `<ops>` and the whole `allocate_registers`.
 //! * `slots <locals> <regs> ;; ok <v=off,..>`          the real `spill_offsets`
 //! * `assign <nodes> <edges> <stack> ;; ok <v=k,..> | err`   the real `assign_registers` on an arbitrary graph/stack
-//! * `vm <package> <test> ;; pass|fail|builderr`      generated high-pressure Sway functions run on the real VM
+//! * `vm <package> <test> ;; pass|fail|builderr`      generated Sway functions (high register pressure; loops that shift/rotate/swap
+//!   loop-carried values) compiled in release mode and run on the real VM
 //!
 //! Op lists come from (a) the corpus file, (b) real compilations harvested with SWAY_VERIF_DUMP
 //! (generated packages and a few e2e test programs), (c) a random generator of op lists with
@@ -171,6 +172,136 @@ fn gen_ops(r: &mut Rng, pressure: usize, blocks: usize, per_block: usize) -> Str
     g.ops.join("|")
 }
 
+
+/// Loops that shift / rotate / swap loop-carried values through MOVEs at the back edge, and moves
+/// whose source (or destination) is redefined while the other end stays live: the shapes where the
+/// two ends of a coalescing candidate interfere in ONE direction only (`src→dst` or `dst→src`).
+fn gen_rotate(r: &mut Rng) -> String {
+    let locals = 8 * r.below(4);
+    let mut g = Gen { r, ops: vec![], nregs: 0, defined: vec![] };
+    g.ops.push("label.0:-:-".into());
+    g.ops.push(format!("other.CFEI.{locals}:c5:c5"));
+    g.ops.push("move:c20:c5".into());
+    // background pressure: none, moderate, or close to / beyond the pool (Briggs/George decide)
+    let pressure = match g.r.below(5) { 0 | 1 => 0, 2 => 5 + g.r.below(10), 3 => 28 + g.r.below(8), _ => 36 + g.r.below(14) } as usize;
+    let mut keep = vec![];
+    for i in 0..pressure {
+        let d = g.fresh();
+        keep.push(d);
+        g.ops.push(format!("other.MOVI.{i}:v{d}:-"));
+    }
+    let nloops = 1 + g.r.below(2);
+    let mut carried_all = vec![];
+    for lp in 0..nloops {
+        let k = 2 + g.r.below(3) as usize;
+        let mut c: Vec<usize> = (0..k).map(|_| g.fresh()).collect();
+        // definition order decides which direction the initial edges have
+        let mut order: Vec<usize> = (0..k).collect();
+        for i in (1..k).rev() { let j = g.r.below(i as u64 + 1) as usize; order.swap(i, j); }
+        for &i in &order {
+            if g.r.chance(1, 2) { g.ops.push(format!("other.MOVI.{}:v{}:-", i + 1, c[i])); }
+            else { g.ops.push(format!("other.LW.{}:v{}:c20", i, c[i])); }
+        }
+        let n = g.fresh();
+        g.ops.push(format!("other.MOVI.{}:v{n}:-", 3 + lp));
+        let head = 10 + lp;
+        g.ops.push(format!("label.{head}:-:-"));
+        let nvar = 1 + g.r.below(2);
+        for _ in 0..nvar {
+            match g.r.below(6) {
+                0 | 1 => {
+                    // fib-like shift: t = c0 + c1; c0 = c1; c1 = c2; …; c[k-1] = t
+                    let t = g.fresh();
+                    g.ops.push(format!("other.ADD:v{t}:v{},v{}", c[0], c[1]));
+                    for i in 0..k - 1 { g.ops.push(format!("move:v{}:v{}", c[i], c[i + 1])); }
+                    g.ops.push(format!("move:v{}:v{t}", c[k - 1]));
+                }
+                2 => {
+                    // rotation through a temporary
+                    let t = g.fresh();
+                    g.ops.push(format!("move:v{t}:v{}", c[0]));
+                    for i in 0..k - 1 { g.ops.push(format!("move:v{}:v{}", c[i], c[i + 1])); }
+                    g.ops.push(format!("move:v{}:v{t}", c[k - 1]));
+                }
+                3 => {
+                    // swap of two of them through a temporary
+                    let t = g.fresh();
+                    let (a, b) = (c[0], c[k - 1]);
+                    g.ops.push(format!("move:v{t}:v{a}"));
+                    g.ops.push(format!("move:v{a}:v{b}"));
+                    g.ops.push(format!("move:v{b}:v{t}"));
+                }
+                4 => {
+                    // copy, then the SOURCE is redefined while the copy is still live
+                    let d = g.fresh();
+                    let s0 = c[g.r.below(k as u64) as usize];
+                    g.ops.push(format!("move:v{d}:v{s0}"));
+                    if g.r.chance(1, 2) { g.ops.push(format!("other.SW.1:-:c20,v{d}")); }
+                    if g.r.chance(1, 2) { g.ops.push(format!("other.ADDI.1:v{s0}:v{s0}")); }
+                    else { g.ops.push(format!("other.MOVI.9:v{s0}:-")); }
+                    g.ops.push(format!("other.SW.2:-:c20,v{d}"));
+                    c.push(d);
+                }
+                _ => {
+                    // copy, then the DESTINATION is redefined while the source is still live
+                    let d = g.fresh();
+                    let s0 = c[g.r.below(k as u64) as usize];
+                    g.ops.push(format!("move:v{d}:v{s0}"));
+                    g.ops.push(format!("other.ADDI.1:v{d}:v{d}"));
+                    g.ops.push(format!("other.SW.3:-:v{s0},v{d}"));
+                }
+            }
+            if g.r.chance(1, 3) {
+                g.defined = c.clone();
+                g.body_op(0);
+            }
+        }
+        g.ops.push(format!("other.ADDI.1:v{n}:v{n}"));
+        g.ops.push(format!("jnz.{head}:-:v{n}"));
+        carried_all.extend(c);
+    }
+    let acc = g.fresh();
+    g.ops.push(format!("other.MOVI.0:v{acc}:-"));
+    for v in carried_all.iter().chain(keep.iter()) {
+        g.ops.push(format!("other.ADD:v{acc}:v{acc},v{v}"));
+    }
+    g.ops.push(format!("move:c18:v{acc}"));
+    g.ops.push(format!("other.CFSI.{locals}:c5:c5"));
+    g.ops.push("retcall:-:c0,c17".into());
+    g.ops.join("|")
+}
+
+/// Release-profile Sway functions whose loops shift, rotate and swap loop-carried values
+/// (block-argument MOVEs after mem2reg); each `#[test]` asserts the value computed here.
+fn loops_pkg(r: &mut Rng) -> String {
+    let mut s = String::from("library;\n");
+    s += "#[inline(never)]\nfn fib(n: u64) -> u64 { let mut a = 0; let mut b = 1; let mut i = 0; while i < n { let t = a + b; a = b; b = t; i = i + 1; } a }\n";
+    s += "#[inline(never)]\nfn trib(n: u64, x: u64) -> u64 { let mut a = x; let mut b = 1; let mut c = 2; let mut i = 0; while i < n { let t = a + b + c; a = b; b = c; c = t; i = i + 1; } a + 3 * b + 7 * c }\n";
+    s += "#[inline(never)]\nfn rot3(n: u64, x: u64, y: u64, z: u64) -> u64 { let mut a = x; let mut b = y; let mut c = z; let mut i = 0; while i < n { let t = a; a = b; b = c; c = t + i; i = i + 1; } a * 1000003 + b * 1009 + c }\n";
+    s += "#[inline(never)]\nfn rot4(n: u64, x: u64, y: u64) -> u64 { let mut a = x; let mut b = y; let mut c = x + y; let mut d = x * y; let mut i = 0; while i < n { let t = d; d = c; c = b; b = a; a = t ^ i; i = i + 1; } a + 31 * b + 961 * c + 29791 * d }\n";
+    s += "#[inline(never)]\nfn gcd(x: u64, y: u64) -> u64 { let mut a = x; let mut b = y; while b != 0 { let t = b; b = a % b; a = t; } a }\n";
+    s += "#[inline(never)]\nfn swapn(n: u64, x: u64, y: u64) -> u64 { let mut a = x; let mut b = y; let mut i = 0; while i < n { let t = a; a = b; b = t + 1; i = i + 1; } a * 1000 + b }\n";
+    let fib = |n: u64| { let (mut a, mut b) = (0u64, 1u64); for _ in 0..n { let t = a + b; a = b; b = t; } a };
+    let trib = |n: u64, x: u64| { let (mut a, mut b, mut c) = (x, 1u64, 2u64); for _ in 0..n { let t = a + b + c; a = b; b = c; c = t; } a + 3 * b + 7 * c };
+    let rot3 = |n: u64, x: u64, y: u64, z: u64| { let (mut a, mut b, mut c) = (x, y, z); for i in 0..n { let t = a; a = b; b = c; c = t + i; } a * 1000003 + b * 1009 + c };
+    let rot4 = |n: u64, x: u64, y: u64| { let (mut a, mut b, mut c, mut d) = (x, y, x + y, x * y); for i in 0..n { let t = d; d = c; c = b; b = a; a = t ^ i; } a + 31 * b + 961 * c + 29791 * d };
+    let gcd = |x: u64, y: u64| { let (mut a, mut b) = (x, y); while b != 0 { let t = b; b = a % b; a = t; } a };
+    let swapn = |n: u64, x: u64, y: u64| { let (mut a, mut b) = (x, y); for _ in 0..n { let t = a; a = b; b = t + 1; } a * 1000 + b };
+    let n1 = 5 + r.below(40);
+    s += &format!("#[test]\nfn t_fib() {{ assert(fib({n1}) == {}); }}\n", fib(n1));
+    let (n2, x2) = (3 + r.below(25), r.below(9));
+    s += &format!("#[test]\nfn t_trib() {{ assert(trib({n2}, {x2}) == {}); }}\n", trib(n2, x2));
+    let (n3, x3, y3, z3) = (1 + r.below(20), r.below(90), r.below(90), r.below(90));
+    s += &format!("#[test]\nfn t_rot3() {{ assert(rot3({n3}, {x3}, {y3}, {z3}) == {}); }}\n", rot3(n3, x3, y3, z3));
+    let (n4, x4, y4) = (1 + r.below(20), 1 + r.below(90), 1 + r.below(90));
+    s += &format!("#[test]\nfn t_rot4() {{ assert(rot4({n4}, {x4}, {y4}) == {}); }}\n", rot4(n4, x4, y4));
+    let (x5, y5) = (1 + r.below(100000), 1 + r.below(100000));
+    s += &format!("#[test]\nfn t_gcd() {{ assert(gcd({x5}, {y5}) == {}); }}\n", gcd(x5, y5));
+    let (n6, x6, y6) = (1 + r.below(30), r.below(900), r.below(900));
+    s += &format!("#[test]\nfn t_swapn() {{ assert(swapn({n6}, {x6}, {y6}) == {}); }}\n", swapn(n6, x6, y6));
+    s
+}
+
 // ------------------------------------------------------------------------------------------------
 // harvested op lists + VM runs
 
@@ -252,14 +383,15 @@ fn alloc_line(text: &str, src: &str) -> Option<String> {
     res += &format!(" K={}", ra::NUM_ALLOCATABLE_REGISTERS);
     match st {
         Some(s) => res += &format!(
-            " stages=ok live={} edges={} cops={} clive={} cedges={}",
-            s.live_out, s.edges, s.coalesced_ops, s.coalesced_live_out, s.coalesced_edges
+            " stages=ok live={} edges={} cops={} clive={} cedges={} cmap={}",
+            s.live_out, s.edges, s.coalesced_ops, s.coalesced_live_out, s.coalesced_edges, s.coalesced_map
         ),
         None => res += " stages=panic",
     }
     match al {
         Some(a) if a.status == "ok" => res += &format!(
-            " final={} assign={} spilled={} dc={}",
+            " pre={} rmap={} replay={} final={} assign={} spilled={} dc={}",
+            if a.pre_ops == canon { "same" } else { a.pre_ops.as_str() }, a.regmap, a.replayed as u8,
             a.final_ops, a.assign, a.spilled, a.defs_consistent as u8
         ),
         _ => {}
@@ -320,7 +452,30 @@ fn main() {
             }
             harvested.extend(read_dumps(&dump, max_ops, &mut skipped));
         }
-        let ne2e = if tier_thorough { E2E.len() } else { 1 };
+        // loops that shift / rotate / swap loop-carried values, release profile, run on the VM
+        for p in 0..(if tier_thorough { 3 } else { 1 }) {
+            let dir = scratch.join(format!("loops{p}"));
+            let src = loops_pkg(&mut r);
+            swayrun::write_pkg(&dir, &format!("loops{p}"), &src, true, "").unwrap();
+            match guarded(|| swayrun::build_and_test(&dir, true)) {
+                Some(Ok((outs, _))) => {
+                    for o in outs {
+                        writeln!(out, "vm loops{p} {} ;; {}", o.name, if o.passed { "pass" } else { "fail" }).unwrap();
+                        cases += 1;
+                    }
+                }
+                other => {
+                    match other {
+                        Some(Err(e)) => eprintln!("sv_c08: loops{p} does not build: {e:#}"),
+                        _ => eprintln!("sv_c08: loops{p}: the compiler panicked"),
+                    }
+                    writeln!(out, "vm loops{p} build ;; builderr").unwrap();
+                    cases += 1;
+                }
+            }
+            harvested.extend(read_dumps(&dump, max_ops, &mut skipped));
+        }
+        let ne2e = if tier_thorough { E2E.len() } else { 0 };
         for k in 0..ne2e {
             let name = E2E[(k + r.below(E2E.len() as u64) as usize * (!tier_thorough as usize)) % E2E.len()];
             let srcp = format!("/repo/test/src/e2e_vm_tests/test_programs/should_pass/language/{name}/src/main.sw");
@@ -390,6 +545,10 @@ fn main() {
                     None => "panic".into(),
                 };
                 writeln!(out, "assign {n} {es} {ss} K={} ;; {txt}", ra::NUM_ALLOCATABLE_REGISTERS).unwrap();
+            }
+            3 | 4 | 5 => {
+                let text = gen_rotate(&mut r);
+                if let Some(line) = alloc_line(&text, "rot") { writeln!(out, "{line}").unwrap(); }
             }
             _ => {
                 let pressure = match r.below(6) { 0 => 0, 1 => r.below(10), 2 => 20 + r.below(20), 3 => 36 + r.below(6), _ => 49 + r.below(22) } as usize;
